@@ -68,6 +68,19 @@ def opStep : Op := fun j => do
   let a ← getAction j
   let rnd : Rat → Rat := if bc.f32 then Jx.roundF32 else id
   let (s', ts) := step rnd bc.cfg s a
+  -- the rules (L2 `stepL2`) run next to the transliteration: `Props.C09.flatpack_step_eq_spec` says they agree on every
+  -- state satisfying the episode invariant `Inv` (feasible, cached mask = legal moves) with no more blocks placed than
+  -- steps taken, and every action of the action space; a difference is reported, never hidden.  The guard tests the cheap
+  -- consequences of those hypotheses that the comparison needs (shapes are checked by `getState`; the only entry of the
+  -- cached mask that `step` reads is the one at the action), so that the check runs on every implementation state.
+  if decide (0 ≤ a.block) && decide (0 ≤ a.rot) && decide (0 ≤ a.row) && decide (0 ≤ a.col) &&
+      inSpec bc.cfg a.block.toNat a.rot.toNat a.row.toNat a.col.toNat &&
+      decide (Jx.countTrue s.placed ≤ s.stepCount) && s.numBlocks == bc.cfg.numBlocks &&
+      maskAt s.actionMask a == legalB bc.cfg s a.block.toNat a.rot.toNat a.row.toNat a.col.toNat then
+    let (m, mts) := stepL2 rnd bc.cfg s a.block.toNat a.rot.toNat a.row.toNat a.col.toNat
+    unless decide (m = s') && mts.stepType == ts.stepType && mts.reward == ts.reward &&
+        mts.discount == ts.discount && decide (mts.obs = ts.obs) do
+      throw "flat_pack.step: L1 step and L2 stepL2 differ (theorem flatpack_step_eq_spec would be false here)"
   pure (jObj [("state", jState s'), ("ts", jTimeStep jObs ts), ("valid", jBool (legalAct bc.cfg s a))])
 
 /-- {"cfg", "state"} → mask (L1 recomputed), legal (L2), obs, feasible, solution, objective -/
